@@ -336,7 +336,27 @@ unsafe impl<const K: u8> RefCnt for Tp<K> {
         let o = p.as_ref();
         o.check_live("from_ptr");
         if alloc_mode() != AllocMode::Real && o.kind.load(Relaxed) != K {
-            report("C12", "kind-mismatch", format!("from_ptr::<kind {}> on {}", K, o.describe()));
+            // the known address-reuse mechanism D5 (a reader's debt on a stale pointer is paid by a
+            // writer of another container whose value reuses the address) is told apart by the path
+            // markers of the load in progress: the reader then either keeps the pointer (prepaid
+            // branch of the fast path) or releases the count it was given (helped fallback)
+            let marks = crate::sched::peek_marks();
+            let prepaid = marks & (1u128 << (arc_swap::verif::Site::ATTEMPT_PREPAID as u16)) != 0;
+            let fb_paid = marks & (1u128 << (arc_swap::verif::Site::FALLBACK_UNUSED_PAID as u16)) != 0;
+            if prepaid || fb_paid {
+                report(
+                    "C12",
+                    "stale-debt-paid-by-foreign-writer-wrong-type",
+                    format!(
+                        "a load of a container of kind {} {} an object of kind {} (a value of another container living at a reused address): the crate treats a wrongly typed object as its own",
+                        K,
+                        if prepaid { "took the prepaid branch of the fast path and was handed" } else { "released, in the helped fallback, the count it had been given on" },
+                        o.kind.load(Relaxed)
+                    ),
+                );
+            } else {
+                report("C12", "kind-mismatch", format!("from_ptr::<kind {}> on {} (thread {}, path marks {:#x})", K, o.describe(), crate::sched::tid(), crate::sched::peek_marks()));
+            }
         }
         Tp { p }
     }
